@@ -707,6 +707,28 @@ _s("ordering_through_std", r"""
 #endif
 """, defs="#include <algorithm>\n#include <tuple>\n#include <utility>\n")
 
+_s("magnitude_api", r"""
+        constexpr auto r3 = root<3>(mag<8>());
+        constexpr auto p2 = pow<2>(mag<3>());
+        constexpr auto ip = integer_part(mag<7>() / mag<2>());
+        std::printf("magnitude_api %d %d %d [%s] [%s] [%s] %d %d %d %d\n", get_value<int>(r3), get_value<int>(p2), get_value<int>(ip), mag_label(numerator(mag<6>() / mag<35>())),
+                    mag_label(denominator(mag<6>() / mag<35>())), mag_label(pow<-1>(mag<12>())), int(representable_in<int>(mag<1000000>())), int(representable_in<std::int8_t>(mag<1000>())),
+                    int(representable_in<double>(mag<1>() / mag<3>())), int(representable_in<int>(mag<1>() / mag<3>())));
+""")
+
+_s("unit_api", r"""
+        constexpr auto cu = make_common(seconds, minutes);
+        constexpr auto cpu = make_common_point(QuantityPointMaker<Seconds>{}, QuantityPointMaker<Minutes>{});
+        std::printf("unit_api %d %d %d %d [%s] [%s] [%s] %d %d %.17g\n", int(is_unit(Seconds{})), int(is_unit(3)), int(fits_in_unit_slot(seconds)), int(fits_in_unit_slot(mag<3>())),
+                    unit_label(symbol_for(minutes * seconds)), unit_label(associated_unit_for_points(Seconds{})), unit_label(associated_unit(cu)),
+                    cu(5).in(seconds), int(are_units_point_equivalent(Seconds{}, Seconds{} * mag<1>())), cpu(2.5).in(Seconds{}));
+""")
+
+_s("trig_two_args", r"""
+        std::printf("trig_two_args %.17g %.17g %.17g %.17g\n", arctan2(seconds(0.0), seconds(1.0)).in(radians), arctan2(minutes(0.0), seconds(-5.0)).in(radians) > 3.0 ? 1.0 : 0.0,
+                    cbrt(cubed(seconds)(27.0)).in(seconds), cbrt(cubed(minutes)(8.0)).in(minutes));
+""")
+
 def names():
     return sorted(SNIPPETS)
 
